@@ -511,6 +511,14 @@ class Engine(object):
             L += [z3.Implies(b > 0, app > 0), z3.Implies(p == 0, app == 1),
                   z3.Implies(p == 1, app == b)]
         d[key] = (args, app)
+        # inverse pairs across non-syntactic arguments: ln(t) = a whenever t = exp(a) (and exp10/log10)
+        for fwd, inv in (('exp', 'ln'), ('exp10', 'log10')):
+            if name == inv:
+                for (args2, app2) in list(self.apps.get(fwd, {}).values()):
+                    L.append(z3.Implies(a == app2, app == args2[0]))
+            if name == fwd:
+                for (args2, app2) in list(self.apps.get(inv, {}).values()):
+                    L.append(z3.Implies(args2[0] == app, app2 == a))
         if name in ('ln', 'log10') and z3.is_app(a) and a.decl().kind() == z3.Z3_OP_DIV:
             # ln(p/q) = -ln(q/p)  (true for p,q of equal sign, both sides undefined otherwise)
             num, den = a.arg(0), a.arg(1)
